@@ -72,3 +72,18 @@ Proof.
   unfold spec_comps in SC. destruct (comps_eqb (n0 :: ns) [nm a_U; nm a_V]); [discriminate|].
   destruct (comps_eqb (n0 :: ns) [nm a_S; nm a_T; nm a_P]); discriminate.
 Qed.
+
+(* colours: the constructor's padding is "R, G, B default to 0, A to 1", and nothing else *)
+Lemma pad_color_spec : forall c, pad_color c = spec_color c.
+Proof. intros [|r [|g [|b [|a c']]]]; reflexivity. Qed.
+
+Lemma pad_color_props : forall c,
+  (length c <= 4 -> length (pad_color c) = 4) /\ (4 <= length c -> pad_color c = c) /\
+  firstn (length c) (pad_color c) = c.
+Proof.
+  intros [|r [|g [|b [|a c']]]].
+  1-4: (split; [reflexivity|]; split; [simpl; intro; lia|reflexivity]).
+  assert (E : pad_color (r :: g :: b :: a :: c') = r :: g :: b :: a :: c') by reflexivity.
+  rewrite E. split; [|split; [reflexivity|apply firstn_all]].
+  intro H. simpl in H. destruct c'; [reflexivity|simpl in H; lia].
+Qed.
